@@ -36,7 +36,7 @@ from mc import c10_model as M
 PID = "C10"
 RULE = (
     "a case is one part built by a sequence of Part.add / remove / set_quarter_duration operations in 1-3 phases; "
-    "after each phase all compared maps are queried at every integer timeline position in 7 argument forms; each "
+    "after each phase all compared maps are queried at every integer timeline position in 9 argument forms; each "
     "(part after a phase) is one state; non-trivial = at least one compared kind has an element or a default is exercised "
     "on a part with >= 2 positions"
 )
@@ -235,6 +235,10 @@ def check_map(res, part, name, T, exp, nst, ctx):
     forms = [("array", np.array(T, dtype=int), list(range(n)))]
     perm = list(range(n - 1, -1, -1)) + list(range(min(2, n)))
     forms.append(("permuted array", np.array([T[i] for i in perm], dtype=int), perm))
+    # unsorted WITHOUT repetitions too (a shortcut for duplicate-free arguments must keep the order)
+    shuf = list(range(1, n, 2))[::-1] + list(range(0, n, 2))
+    forms.append(("shuffled array without repeats", np.array([T[i] for i in shuf], dtype=int), shuf))
+    forms.append(("reversed list", [int(T[i]) for i in range(n - 1, -1, -1)], list(range(n - 1, -1, -1))))
     forms.append(("list", [int(t) for t in T], list(range(n))))
     mid = n // 2
     forms.append(("one-element array", np.array([T[mid]], dtype=int), [mid]))
